@@ -17,6 +17,10 @@ type Config struct {
 	Delay      bool // delay bounding instead of preemption bounding (see RunMode)
 	Seed       uint64
 	Cache      *StateCache // shared across successive Explore calls with growing bounds (nil = private)
+	// Part / Parts split one exploration over several processes: the subtrees below the alternatives of the default
+	// execution (the first-level branches) are dealt round-robin; part k explores the default execution and the branches
+	// with index k modulo Parts. The union over all parts is the whole exploration; each part has its own state cache.
+	Part, Parts int
 }
 
 // StateCache maps a state key to the pareto-minimal budgets with which the state has been expanded.
@@ -139,6 +143,8 @@ func Explore(cfg Config, scenario func(), oracle Oracle) *Result {
 		}
 		// branch on the alternatives of every new point
 		pu := used
+		top := len(prefix) == 0 && cfg.Parts > 1
+		branch := 0
 		// recompute budget used along x up to each point: start from the budget of the prefix
 		// (the prefix's own costs are already in `used`; later points took alternative 0 = cost 0)
 		for i := len(prefix); i < len(x.Choices); i++ {
@@ -153,6 +159,12 @@ func Explore(cfg Config, scenario func(), oracle Oracle) *Result {
 				}
 				if int(nb.p) > cfg.PreBound || int(nb.f) > cfg.FaultBound {
 					continue
+				}
+				if top {
+					branch++
+					if (branch-1)%cfg.Parts != cfg.Part {
+						continue
+					}
 				}
 				np := make([]int, i+1)
 				copy(np, x.Choices[:i])
